@@ -61,11 +61,16 @@ def observe(cfg):
                          env=GITENV, check=True).stdout.split("\n")
     git = [f in out for f in FILES]
 
-    def listing(respect):
-        res = FileResolver(FileResolverConfig(respect_gitignore=respect)).resolve([root])
+    def listing(respect, args=None):
+        res = FileResolver(FileResolverConfig(respect_gitignore=respect)).resolve(args or [root])
         rels = {os.path.relpath(str(p), root) for p in res}
         return [f in rels for f in FILES]
-    return git, listing(True), listing(False)
+    # overlapping walk roots in one call: each root is resolved as if it were given alone, whatever the order
+    sub = os.path.join(root, "d")
+    r_root, r_sub = listing(True), listing(True, [sub])
+    union = [a or b for a, b in zip(r_root, r_sub)]
+    overlap_ok = listing(True, [root, sub]) == union and listing(True, [sub, root]) == union
+    return git, r_root, listing(False), overlap_ok
 
 
 def cli_listing(cfg):
@@ -132,8 +137,11 @@ def run(tier: str) -> int:
     for r in _ROOTS + ([_local.root] if hasattr(_local, "root") else []):
         shutil.rmtree(r, ignore_errors=True)
     traces, metas = [], {}
-    for tid, (c, (git, fm, off)) in enumerate(zip(allcfg, obs), 1):
+    for tid, (c, (git, fm, off, overlap_ok)) in enumerate(zip(allcfg, obs), 1):
         chk.evaluations += 1
+        if not overlap_ok:
+            chk.violation("OverlappingRootsIndependent", dict(root_gitignore=[TEXT[i - 1] for i in c[0]], d_gitignore=[TEXT[i - 1] for i in c[1]],
+                                                              why="resolve([root, root/d]) or resolve([root/d, root]) differs from the union of the two roots resolved alone"))
         traces.append(dict(id=tid, root=list(c[0]), d=list(c[1]), git=git, fm=fm, fm_off=off))
         metas[tid] = dict(root_gitignore=[TEXT[i - 1] for i in c[0]], d_gitignore=[TEXT[i - 1] for i in c[1]],
                           git=[f for f, x in zip(FILES, git) if x], flowmark=[f for f, x in zip(FILES, fm) if x])
